@@ -31,3 +31,503 @@ Definition ty (s c : string) : triple := T (nI s) c_RDF_TYPE (ON (nI c)).
 Definition tr (s p : string) (o : obj) : triple := T (nI s) (ex p) o.
 Definition xs_string : str := Str "http://www.w3.org/2001/XMLSchema#string".
 Definition lit (s : string) : obj := OL (Str s) xs_string.
+
+(** * Part 1 -- structure of the selection stage *)
+
+(** everything of a statement except its comments *)
+Definition same_core (a b : stmt) : Prop :=
+  s_inv a = s_inv b /\ s_prop a = s_prop b /\ s_types a = s_types b /\ s_choice a = s_choice b /\
+  s_card a = s_card b /\ s_nocc a = s_nocc b /\ s_prob a = s_prob b.
+
+Lemma same_core_refl a : same_core a a.
+Proof. repeat split. Qed.
+
+Lemma same_core_sym a b : same_core a b -> same_core b a.
+Proof. unfold same_core. intuition congruence. Qed.
+
+Lemma same_core_trans a b c : same_core a b -> same_core b c -> same_core a c.
+Proof. unfold same_core. intuition congruence. Qed.
+
+Lemma same_core_type a b : same_core a b -> s_type a = s_type b.
+Proof. intros H. unfold s_type. destruct H as (_ & _ & -> & _). reflexivity. Qed.
+
+(** the two statements the node-kind merge builds *)
+Definition nl_stmt (b i : stmt) : stmt :=
+  {| s_inv := s_inv b; s_prop := s_prop b; s_types := [c_NONLITERAL_ELEM_TYPE];
+     s_choice := false; s_card := most_general_card (s_card b) (s_card i);
+     s_nocc := (s_nocc b + s_nocc i)%N;
+     s_prob := match s_prob b, s_prob i with
+               | PRatio x, PRatio y => PSum x y
+               | _, _ => PSum (s_nocc b) (s_nocc i)
+               end;
+     s_comments := [] |}.
+
+Definition ch_stmt (d : stmt) (tys : list str) : stmt :=
+  {| s_inv := s_inv d; s_prop := s_prop d; s_types := tys; s_choice := true;
+     s_card := s_card d; s_nocc := s_nocc d; s_prob := s_prob d; s_comments := [] |}.
+
+Section Pieces.
+  Variable fa : FreqAlg.
+  Variable cfg : scfg.
+
+  Definition g_bnode (g : list stmt) := last_such (fun s => str_eqb (s_type s) c_BNODE_ELEM_TYPE) g.
+  Definition g_iri (g : list stmt) := last_such (fun s => str_eqb (s_type s) c_IRI_ELEM_TYPE) g.
+  Definition g_shapes (cnt : N) (g : list stmt) :=
+    sort_desc fa cnt (filter (fun s => negb (str_eqb (s_type s) c_BNODE_ELEM_TYPE) &&
+                                       negb (str_eqb (s_type s) c_IRI_ELEM_TYPE)) g).
+
+  Definition g_dominant (bnode iri : option stmt) (shapes : list stmt) : stmt + serr :=
+    match bnode with
+    | Some b =>
+      match iri with
+      | Some i =>
+        match shapes with
+        | [s0] => if N.eqb (s_nocc i + s_nocc b) (s_nocc s0) then inl s0 else inl (nl_stmt b i)
+        | _ => inl (nl_stmt b i)
+        end
+      | None =>
+        match shapes with
+        | s0 :: _ => if N.eqb (s_nocc s0) (s_nocc b) then inl s0 else inl b
+        | [] => inl b
+        end
+      end
+    | None =>
+      match shapes with
+      | [] => match iri with Some i => inl i | None => inr SEValue end
+      | s0 :: _ =>
+        match iri with
+        | None => inl s0
+        | Some i => if N.ltb (s_nocc s0) (s_nocc i) then inl i else inl s0
+        end
+      end
+    end.
+
+  Definition g_or_types (dom0 : stmt) (shapes : list stmt) : list str :=
+    let dom_in_shapes := existsb (same_obj dom0) shapes in
+    if x_allow_redundant_or cfg
+    then (if dom_in_shapes then [] else [s_type dom0]) ++ map s_type shapes
+    else if dom_in_shapes then map s_type shapes else [].
+
+  Definition g_dom1 (dom0 : stmt) (shapes : list stmt) : stmt :=
+    if x_disable_or cfg then dom0
+    else if Nat.ltb 1 (List.length (g_or_types dom0 shapes))
+         then ch_stmt dom0 (g_or_types dom0 shapes) else dom0.
+
+  Definition g_first (bnode iri : option stmt) : list stmt :=
+    match bnode with
+    | Some b => b :: match iri with Some i => [i] | None => [] end
+    | None => []
+    end.
+
+  Lemma merge_group_eq cnt g :
+    merge_group fa cfg cnt g =
+    match g_dominant (g_bnode g) (g_iri g) (g_shapes cnt g) with
+    | inr e => inr e
+    | inl dom0 =>
+      add_comments_of cfg (g_dom1 dom0 (g_shapes cnt g))
+        (g_first (g_bnode g) (g_iri g) ++
+         filter (fun s => negb (same_obj (g_dom1 dom0 (g_shapes cnt g)) s)) (g_shapes cnt g))
+    end.
+  Proof. reflexivity. Qed.
+End Pieces.
+
+Lemma last_such_In f l x : last_such f l = Some x -> In x l /\ f x = true.
+Proof.
+  unfold last_such. intros H. apply find_some in H. destruct H as [H1 H2].
+  split; [apply in_rev; exact H1 | exact H2].
+Qed.
+
+Lemma In_sort_desc fa cnt l y : In y (sort_desc fa cnt l) <-> In y l.
+Proof.
+  unfold sort_desc.
+  assert (Hins : forall x l0 z, In z (insert_desc fa cnt x l0) <-> z = x \/ In z l0).
+  { intros x l0 z. induction l0 as [|w l0 IH]; cbn.
+    - intuition.
+    - destruct (fle fa _ _); cbn; rewrite ?IH; intuition. }
+  assert (H : forall l0 acc, In y (fold_left (fun acc x => insert_desc fa cnt x acc) l0 acc) <-> In y l0 \/ In y acc).
+  { induction l0 as [|x l0 IH]; intros acc; cbn; [intuition|].
+    rewrite IH, Hins. intuition. }
+  rewrite H. cbn. intuition.
+Qed.
+
+Lemma map_err_In {A B E} (f : A -> B + E) l out y :
+  map_err f l = inl out -> In y out -> exists x, In x l /\ f x = inl y.
+Proof.
+  revert out; induction l as [|x l IH]; cbn; intros out H Hy.
+  - inversion H; subst. destruct Hy.
+  - destruct (f x) as [z|e] eqn:Efx; [|discriminate].
+    destruct (map_err f l) as [ys|e]; [|discriminate]. inversion H; subst.
+    destruct Hy as [<-|Hy].
+    + exists x. split; [left; reflexivity | exact Efx].
+    + destruct (IH ys eq_refl Hy) as [x' [H1 H2]]. exists x'. split; [right; exact H1 | exact H2].
+Qed.
+
+(** ** an invariant of the selection stage: [Q] is stable under adding a
+    comment, under the NONLITERAL statement and under a choice statement *)
+Section Inv.
+  Variable fa : FreqAlg.
+  Variable cfg : scfg.
+  Variable Q : stmt -> Prop.
+  Hypothesis Hadd : forall s k, Q s -> Q (add_comment s k).
+  Hypothesis Hnl : forall b i, Q b -> Q i -> Q (nl_stmt b i).
+  Hypothesis Hch : forall d tys, Q d -> Q (ch_stmt d tys).
+
+  Lemma add_comments_of_inv l : forall dom r, Q dom -> add_comments_of cfg dom l = inl r -> Q r.
+  Proof.
+    induction l as [|x l IH]; cbn; intros dom r Hd H.
+    - inversion H; subst; exact Hd.
+    - destruct (comment_of cfg x) as [k|e]; [|discriminate].
+      eapply IH; [|exact H]. apply Hadd. exact Hd.
+  Qed.
+
+  Lemma decide_best_inv cnt g r : Forall Q g -> decide_best fa cfg cnt g = inl r -> Q r.
+  Proof.
+    intros Hg. rewrite Forall_forall in Hg. unfold decide_best.
+    destruct (x_discard_useless cfg && useless_plus_group fa cnt g).
+    - unfold first_such. destruct (List.find _ g) as [s|] eqn:E; [|discriminate].
+      intros H; inversion H; subst. apply Hg. apply find_some in E. apply E.
+    - set (gs := sort_desc fa cnt g).
+      assert (Hgs : forall x, In x gs -> Q x).
+      { intros x Hx. apply Hg. apply (In_sort_desc fa cnt). exact Hx. }
+      match goal with |- match ?p with _ => _ end = _ -> _ => destruct p as [res|] eqn:E end; [|discriminate].
+      intros H. eapply add_comments_of_inv; [|exact H]. apply Hgs.
+      unfold first_such in E.
+      destruct (x_keep_less_specific cfg).
+      + destruct (List.find _ gs) as [s|] eqn:E1.
+        * inversion E; subst. apply find_some in E1. apply E1.
+        * destruct gs; cbn in E; [discriminate|]. inversion E; subst. left; reflexivity.
+      + destruct (List.find _ gs) as [s|] eqn:E1.
+        * inversion E; subst. apply find_some in E1. apply E1.
+        * destruct gs; cbn in E; [discriminate|]. inversion E; subst. left; reflexivity.
+  Qed.
+
+  Lemma Forall_filter' (p : stmt -> bool) l : Forall Q l -> Forall Q (filter p l).
+  Proof. rewrite !Forall_forall. intros H x Hx. apply filter_In in Hx. apply H, Hx. Qed.
+
+  Lemma group_same_inv cnt fuel : forall l r,
+    Forall Q l -> group_same fa cfg fuel cnt l = inl r -> Forall Q r.
+  Proof.
+    induction fuel as [|f IH]; cbn; intros l r Hl H.
+    - inversion H; subst; exact Hl.
+    - destruct l as [|a rest]; [inversion H; constructor|].
+      inversion Hl as [|? ? Ha Hrest]; subst.
+      match type of H with match ?p with _ => _ end = _ => destruct p as [r0|e] eqn:E0 end; [|discriminate].
+      destruct (group_same fa cfg f cnt _) as [rs|e] eqn:E1; [|discriminate].
+      inversion H; subst. constructor.
+      + destruct (filter (same_tokens a) rest) as [|b grp] eqn:Eg.
+        * inversion E0; subst; exact Ha.
+        * eapply decide_best_inv; [|exact E0]. constructor; [exact Ha|].
+          rewrite <- Eg. apply Forall_filter'. exact Hrest.
+      + eapply IH; [|exact E1]. apply Forall_filter'. exact Hrest.
+  Qed.
+
+  Lemma g_dominant_inv bnode iri shapes r :
+    (forall b, bnode = Some b -> Q b) -> (forall i, iri = Some i -> Q i) -> Forall Q shapes ->
+    g_dominant bnode iri shapes = inl r -> Q r.
+  Proof.
+    intros Hb Hi Hs. unfold g_dominant.
+    destruct bnode as [b|]; destruct iri as [i|].
+    - specialize (Hb b eq_refl). specialize (Hi i eq_refl).
+      destruct shapes as [|s0 [|s1 sh]].
+      + intros H; inversion H; subst. apply Hnl; assumption.
+      + inversion Hs; subst. destruct (N.eqb _ _); intros H; inversion H; subst;
+          [assumption | apply Hnl; assumption].
+      + intros H; inversion H; subst. apply Hnl; assumption.
+    - specialize (Hb b eq_refl). destruct shapes as [|s0 sh].
+      + intros H; inversion H; subst; assumption.
+      + inversion Hs; subst. destruct (N.eqb _ _); intros H; inversion H; subst; assumption.
+    - specialize (Hi i eq_refl). destruct shapes as [|s0 sh].
+      + intros H; inversion H; subst; assumption.
+      + inversion Hs; subst. destruct (N.ltb _ _); intros H; inversion H; subst; assumption.
+    - destruct shapes as [|s0 sh]; [discriminate|].
+      inversion Hs; subst. intros H; inversion H; subst; assumption.
+  Qed.
+
+  Lemma g_dom1_inv dom0 shapes : Q dom0 -> Q (g_dom1 cfg dom0 shapes).
+  Proof.
+    intros Hd. unfold g_dom1. destruct (x_disable_or cfg); [exact Hd|].
+    destruct (Nat.ltb 1 _); [|exact Hd]. apply Hch. exact Hd.
+  Qed.
+
+  Lemma g_shapes_Forall cnt g : Forall Q g -> Forall Q (g_shapes fa cnt g).
+  Proof.
+    intros H. unfold g_shapes. rewrite Forall_forall in *. intros x Hx.
+    apply In_sort_desc in Hx. apply filter_In in Hx. apply H, Hx.
+  Qed.
+
+  Lemma merge_group_inv cnt g r : Forall Q g -> merge_group fa cfg cnt g = inl r -> Q r.
+  Proof.
+    intros Hg. rewrite merge_group_eq.
+    destruct (g_dominant _ _ _) as [dom0|e] eqn:E; [|discriminate].
+    intros H. eapply add_comments_of_inv; [|exact H].
+    assert (Hin : forall f x, last_such f g = Some x -> Q x).
+    { intros f x Hx. apply last_such_In in Hx. rewrite Forall_forall in Hg. apply Hg, Hx. }
+    apply g_dom1_inv.
+    eapply g_dominant_inv; [| |apply g_shapes_Forall; exact Hg|exact E].
+    - intros b. apply Hin.
+    - intros i. apply Hin.
+  Qed.
+
+  Lemma group_nodes_inv cnt fuel : forall l r,
+    Forall Q l -> group_nodes fa cfg fuel cnt l = inl r -> Forall Q r.
+  Proof.
+    induction fuel as [|f IH]; cbn; intros l r Hl H.
+    - inversion H; subst; exact Hl.
+    - destruct l as [|a rest]; [inversion H; constructor|].
+      inversion Hl as [|? ? Ha Hrest]; subst.
+      destruct (str_eqb (s_prop a) (x_tau cfg) || negb (is_nonliteral_type (s_type a))).
+      + destruct (group_nodes fa cfg f cnt rest) as [rs|e] eqn:E1; [|discriminate].
+        inversion H; subst. constructor; [exact Ha|]. eapply IH; [exact Hrest | exact E1].
+      + match type of H with match ?p with _ => _ end = _ => destruct p as [r0|e] eqn:E0 end; [|discriminate].
+        destruct (group_nodes fa cfg f cnt _) as [rs|e] eqn:E1; [|discriminate].
+        inversion H; subst. constructor.
+        * destruct (filter (mergeable_with a) rest) as [|b grp] eqn:Eg.
+          -- inversion E0; subst; exact Ha.
+          -- eapply merge_group_inv; [|exact E0]. constructor; [exact Ha|].
+             rewrite <- Eg. apply Forall_filter'. exact Hrest.
+        * eapply IH; [|exact E1]. apply Forall_filter'. exact Hrest.
+  Qed.
+
+  Lemma select_valid_inv cnt l r : Forall Q l -> select_valid fa cfg cnt l = inl r -> Forall Q r.
+  Proof.
+    unfold select_valid. intros Hl. destruct l as [|a l]; [intros H; inversion H; constructor|].
+    destruct (group_same fa cfg _ cnt (a :: l)) as [l1|e] eqn:E; [|discriminate].
+    intros H. eapply group_nodes_inv; [|exact H]. eapply group_same_inv; [exact Hl | exact E].
+  Qed.
+End Inv.
+
+(** * Part 2 -- base statements, tuning, one class, the whole stage *)
+
+Definition base_card (c : card) : Prop := match c with CExact _ | CPlus => True | _ => False end.
+
+Lemma most_general_card_base a b : base_card a -> base_card (most_general_card a b).
+Proof. intros H. unfold most_general_card. destruct (_ || _); [exact I | exact H]. Qed.
+
+Definition mk_base (inv : bool) (p k : str) (c : ckey) (n : N) : stmt :=
+  {| s_inv := inv; s_prop := p; s_types := [k]; s_choice := false; s_card := card_of_key c;
+     s_nocc := n; s_prob := PRatio n; s_comments := [] |}.
+
+Lemma base_statements_In fa thr cnt inv pd b :
+  In b (base_statements fa thr cnt inv pd) <->
+  exists p m k cd c n, In (p, m) pd /\ In (k, cd) m /\ In (c, n) cd /\
+                       fle fa thr (ratio fa n cnt) = true /\ b = mk_base inv p k c n.
+Proof.
+  unfold base_statements. split.
+  - intros Hs.
+    apply in_flat_map in Hs. destruct Hs as ([p m] & Hpm & Hs).
+    apply in_flat_map in Hs. destruct Hs as ([k cd] & Hk & Hs).
+    apply in_flat_map in Hs. destruct Hs as ([c n] & Hc & Hs). cbn in *.
+    destruct (fle fa thr (ratio fa n cnt)) eqn:E; cbn in Hs; [|contradiction].
+    destruct Hs as [<-|[]]. exists p, m, k, cd, c, n. repeat split; assumption.
+  - intros (p & m & k & cd & c & n & H1 & H2 & H3 & H4 & ->).
+    apply in_flat_map. exists (p, m). split; [exact H1|].
+    apply in_flat_map. exists (k, cd). split; [exact H2|].
+    apply in_flat_map. exists (c, n). split; [exact H3|]. cbn. rewrite H4. left. reflexivity.
+Qed.
+
+Lemma base_statements_card fa thr cnt inv pd b :
+  In b (base_statements fa thr cnt inv pd) -> base_card (s_card b) /\ s_inv b = inv /\ s_choice b = false.
+Proof.
+  intros H. apply base_statements_In in H. destruct H as (p & m & k & cd & c & n & _ & _ & _ & _ & ->).
+  cbn. split; [destruct c; exact I | split; reflexivity].
+Qed.
+
+(** ** tuning *)
+
+Definition gen_card (cfg : scfg) (c : card) : card :=
+  if x_disable_exact cfg
+  then match c with CExact k => if N.ltb 1 k then CPlus else c | _ => c end
+  else c.
+
+Definition post (cfg : scfg) (s : stmt) : stmt :=
+  (if x_disable_comments cfg then drop_comments else fun x => x)
+    ((if x_disable_exact cfg then generalize_exact else fun x => x) s).
+
+Lemma generalize_exact_fields s :
+  s_inv (generalize_exact s) = s_inv s /\ s_prop (generalize_exact s) = s_prop s /\
+  s_types (generalize_exact s) = s_types s /\ s_choice (generalize_exact s) = s_choice s /\
+  s_nocc (generalize_exact s) = s_nocc s /\ s_prob (generalize_exact s) = s_prob s /\
+  s_card (generalize_exact s) = match s_card s with CExact k => if N.ltb 1 k then CPlus else CExact k | c => c end.
+Proof.
+  unfold generalize_exact. destruct (s_card s) as [k| | |] eqn:E; try (rewrite E; repeat split; reflexivity).
+  destruct (N.ltb 1 k); cbn; rewrite ?E; repeat split; reflexivity.
+Qed.
+
+Lemma post_fields cfg s :
+  s_inv (post cfg s) = s_inv s /\ s_prop (post cfg s) = s_prop s /\ s_types (post cfg s) = s_types s /\
+  s_choice (post cfg s) = s_choice s /\ s_nocc (post cfg s) = s_nocc s /\ s_prob (post cfg s) = s_prob s /\
+  s_card (post cfg s) = gen_card cfg (s_card s).
+Proof.
+  unfold post, gen_card. destruct (generalize_exact_fields s) as (G1 & G2 & G3 & G4 & G5 & G6 & G7).
+  assert (G7' : s_card (generalize_exact s) =
+                match s_card s with CExact k => if N.ltb 1 k then CPlus else s_card s | _ => s_card s end).
+  { rewrite G7. destruct (s_card s); reflexivity. }
+  destruct (x_disable_comments cfg), (x_disable_exact cfg); cbn; repeat split; assumption.
+Qed.
+
+Lemma tune_eq fa cfg cnt valid :
+  tune fa cfg cnt valid =
+  match valid with
+  | [] => inl []
+  | _ => match (if x_all_compliant cfg then map_err (relax fa cfg cnt) (sort_desc fa cnt valid)
+                else inl (sort_desc fa cnt valid)) with
+         | inr e => inr e
+         | inl l1 => inl (map (post cfg) l1)
+         end
+  end.
+Proof.
+  unfold tune, post. destruct valid; [reflexivity|].
+  destruct (if x_all_compliant cfg then _ else _) as [l1|e]; [|reflexivity].
+  destruct (x_disable_exact cfg), (x_disable_comments cfg); cbn;
+    rewrite ?map_map, ?map_id; reflexivity.
+Qed.
+
+Lemma relax_spec fa cfg cnt v s :
+  relax fa cfg cnt v = inl s ->
+  (feqb fa (pv fa cnt v) (fone fa) = true /\ s = v) \/
+  (feqb fa (pv fa cnt v) (fone fa) = false /\ s_inv s = s_inv v /\ s_prop s = s_prop v /\
+   s_types s = s_types v /\ s_choice s = s_choice v /\ s_card s = relax_card cfg (s_card v) /\
+   s_nocc s = s_nocc v).
+Proof.
+  unfold relax. destruct (feqb fa _ _); cbn.
+  - intros H; inversion H; subst. left. split; reflexivity.
+  - destruct (comment_of cfg v); [|discriminate]. intros H; inversion H; subst. cbn. right. repeat split.
+Qed.
+
+Lemma gen_card_relax cfg c : gen_card cfg (relax_card cfg c) = relax_card cfg c.
+Proof. unfold gen_card, relax_card. destruct (x_disable_exact cfg), (_ && _); reflexivity. Qed.
+
+(** what an output statement of [tune] is, in terms of a selected statement *)
+Definition tuned_from (fa : FreqAlg) (cfg : scfg) (cnt : N) (v s : stmt) : Prop :=
+  s_inv s = s_inv v /\ s_prop s = s_prop v /\ s_types s = s_types v /\ s_choice s = s_choice v /\
+  s_nocc s = s_nocc v /\
+  ((x_all_compliant cfg = true /\ feqb fa (pv fa cnt v) (fone fa) = false /\
+    s_card s = relax_card cfg (s_card v))
+   \/ ((x_all_compliant cfg = false \/ feqb fa (pv fa cnt v) (fone fa) = true) /\
+       s_card s = gen_card cfg (s_card v) /\ s_prob s = s_prob v)).
+
+Lemma tune_spec fa cfg cnt valid out :
+  tune fa cfg cnt valid = inl out ->
+  forall s, In s out -> exists v, In v valid /\ tuned_from fa cfg cnt v s.
+Proof.
+  rewrite tune_eq. destruct valid as [|a valid]; [intros H; inversion H; intros s []|].
+  set (l0 := sort_desc fa cnt (a :: valid)).
+  assert (Hl0 : forall v, In v l0 -> In v (a :: valid)) by (intros v; apply In_sort_desc).
+  destruct (x_all_compliant cfg) eqn:Eac.
+  - destruct (map_err _ l0) as [l1|e] eqn:E; [|discriminate].
+    intros H; inversion H; subst. intros s Hs. apply in_map_iff in Hs. destruct Hs as [s1 [<- Hs1]].
+    destruct (map_err_In _ _ _ _ E Hs1) as [v [Hv Hr]].
+    exists v. split; [apply Hl0; exact Hv|].
+    pose proof (post_fields cfg s1) as (P1 & P2 & P3 & P4 & P5 & P6 & P7).
+    apply relax_spec in Hr. destruct Hr as [[Hf ->] | (Hf & R1 & R2 & R3 & R4 & R5 & R6)].
+    + unfold tuned_from. repeat split; try assumption. right. repeat split; try assumption. right; exact Hf.
+    + unfold tuned_from. repeat split; try congruence. left. repeat split; try assumption.
+      rewrite P7, R5. apply gen_card_relax.
+  - intros H; inversion H; subst. intros s Hs. apply in_map_iff in Hs. destruct Hs as [v [<- Hv]].
+    exists v. split; [apply Hl0; exact Hv|].
+    pose proof (post_fields cfg v) as (P1 & P2 & P3 & P4 & P5 & P6 & P7).
+    unfold tuned_from. repeat split; try assumption. right. repeat split; try assumption. left; exact Eac.
+Qed.
+
+(** ** one class *)
+
+Definition class_cnt (counts : ccounts) (ce : str * centry) : N :=
+  match dget counts (fst ce) with Some n => n | None => 0%N end.
+
+Definition class_base (fa : FreqAlg) (cfg : scfg) (thr : F fa) (counts : ccounts) (ce : str * centry) : list stmt :=
+  base_statements fa thr (class_cnt counts ce) false (c_direct (snd ce)) ++
+  (if x_inverse cfg then base_statements fa thr (class_cnt counts ce) true (c_inverse (snd ce)) else []).
+
+(** the candidates of one direction, in the order the selection sees them *)
+Definition class_dir (fa : FreqAlg) (cfg : scfg) (thr : F fa) (counts : ccounts) (ce : str * centry) (inv : bool)
+  : list stmt :=
+  filter (fun s => Bool.eqb (s_inv s) inv)
+         (sort_desc fa (class_cnt counts ce) (class_base fa cfg thr counts ce)).
+
+Definition class_selected (fa : FreqAlg) (cfg : scfg) (thr : F fa) (counts : ccounts) (ce : str * centry)
+  : list stmt + serr :=
+  match select_valid fa cfg (class_cnt counts ce) (class_dir fa cfg thr counts ce false) with
+  | inr e => inr e
+  | inl vd =>
+    match select_valid fa cfg (class_cnt counts ce) (class_dir fa cfg thr counts ce true) with
+    | inr e => inr e
+    | inl vi => inl (vd ++ vi)
+    end
+  end.
+
+Lemma filter_ext_eq {A} (f g : A -> bool) l : (forall x, f x = g x) -> filter f l = filter g l.
+Proof. intros H. induction l as [|x l IH]; cbn; [reflexivity|]. rewrite H, IH. reflexivity. Qed.
+
+Lemma shex_class_eq fa cfg thr counts ce :
+  shex_class fa cfg thr counts ce =
+  match class_selected fa cfg thr counts ce with
+  | inr e => inr e
+  | inl v =>
+    match tune fa cfg (class_cnt counts ce) v with
+    | inr e => inr e
+    | inl stmts => inl {| sh_name := shape_name (x_shapes_ns cfg) (fst ce); sh_class := fst ce;
+                          sh_n := class_cnt counts ce; sh_stmts := stmts |}
+    end
+  end.
+Proof.
+  unfold shex_class, class_selected, class_dir, class_base, class_cnt.
+  rewrite (filter_ext_eq (fun s => negb (s_inv s)) (fun s => Bool.eqb (s_inv s) false))
+    by (intros x; destruct (s_inv x); reflexivity).
+  rewrite (filter_ext_eq (fun s => s_inv s) (fun s => Bool.eqb (s_inv s) true))
+    by (intros x; destruct (s_inv x); reflexivity).
+  destruct (select_valid fa cfg _ (filter (fun s => Bool.eqb (s_inv s) false) _)) as [vd|e]; [|reflexivity].
+  destruct (select_valid fa cfg _ (filter (fun s => Bool.eqb (s_inv s) true) _)) as [vi|e]; reflexivity.
+Qed.
+
+Lemma class_dir_In fa cfg thr counts ce inv b :
+  In b (class_dir fa cfg thr counts ce inv) <-> In b (class_base fa cfg thr counts ce) /\ s_inv b = inv.
+Proof.
+  unfold class_dir. rewrite filter_In, In_sort_desc, Bool.eqb_true_iff. tauto.
+Qed.
+
+(** ** the whole stage: every output shape comes from [shex_class] and keeps a
+    sub-list of its statements ([_clean_empty_shapes] only removes) *)
+
+Lemma prune_shape_sub names sh sh' :
+  prune_shape names sh = inl sh' ->
+  sh_name sh' = sh_name sh /\ sh_class sh' = sh_class sh /\ sh_n sh' = sh_n sh /\
+  incl (sh_stmts sh') (sh_stmts sh).
+Proof.
+  unfold prune_shape. destruct (existsb _ _); [discriminate|]. intros H; inversion H; subst; cbn.
+  repeat split. intros x Hx. apply in_app_or in Hx.
+  destruct Hx as [Hx|Hx]; apply filter_In in Hx; destruct Hx as [Hx _]; apply filter_In in Hx; apply Hx.
+Qed.
+
+Definition shape_sub (sh' sh : shape) : Prop :=
+  sh_name sh' = sh_name sh /\ sh_class sh' = sh_class sh /\ sh_n sh' = sh_n sh /\
+  incl (sh_stmts sh') (sh_stmts sh).
+
+Lemma clean_shapes_sub fuel : forall l l',
+  clean_shapes fuel l = inl l' -> forall sh', In sh' l' -> exists sh, In sh l /\ shape_sub sh' sh.
+Proof.
+  induction fuel as [|f IH]; cbn; intros l l' H sh' Hin.
+  - inversion H; subst. exists sh'. split; [exact Hin|]. repeat split. apply incl_refl.
+  - destruct (empty_names l) as [|n names] eqn:En.
+    + inversion H; subst. exists sh'. split; [exact Hin|]. repeat split. apply incl_refl.
+    + destruct (map_err _ _) as [l1|e] eqn:E; [|discriminate].
+      destruct (IH _ _ H sh' Hin) as [sh1 [H1 S1]].
+      destruct (map_err_In _ _ _ _ E H1) as [sh [Hsh Hp]].
+      apply filter_In in Hsh. exists sh. split; [apply Hsh|].
+      apply prune_shape_sub in Hp. destruct S1 as (A1 & A2 & A3 & A4). destruct Hp as (B1 & B2 & B3 & B4).
+      repeat split; try congruence. eapply incl_tran; eassumption.
+Qed.
+
+Lemma shex_spec fa cfg thr P C shapes :
+  shex fa cfg thr P C = inl shapes ->
+  forall sh', In sh' shapes ->
+  exists ce sh, In ce P /\ shex_class fa cfg thr C ce = inl sh /\ shape_sub sh' sh.
+Proof.
+  unfold shex. destruct (map_err _ P) as [l|e] eqn:E; [|discriminate].
+  intros H sh' Hin.
+  assert (Hsub : exists sh, In sh l /\ shape_sub sh' sh).
+  { destruct (x_remove_empty cfg).
+    - eapply clean_shapes_sub; eassumption.
+    - inversion H; subst. exists sh'. split; [exact Hin|]. repeat split. apply incl_refl. }
+  destruct Hsub as [sh [Hsh Hs]].
+  destruct (map_err_In _ _ _ _ E Hsh) as [ce [Hce Hc]]. exists ce, sh. split; [|split]; assumption.
+Qed.
